@@ -30,7 +30,8 @@ func TestMain(m *testing.M) {
 	lib.Extra("rule", "rapid-generated messages (UUID/metadata: valid UTF-8 incl. empty, control, multi-byte; payload nil/empty/bytes), "+
 		"message pairs differing in exactly one component (incl. renamed key keeping the value), values of JSON/protobuf/gogo type families, "+
 		"destination topics and replies. Non-trivial: the message has >=1 metadata entry or a non-empty payload (Copy/round-trips), "+
-		"or the pair differs in exactly one component (Equals). Distinctness by canonical encoding of the case.")
+		"or the pair differs in exactly one component (Equals). Distinctness by canonical encoding of the case."+
+		" Equals mutations include case-only changes of UUID, metadata key and metadata value (incl. non-ASCII case partners).")
 	lib.Extra("assumptions", []string{
 		"strings are valid UTF-8 (the property excludes invalid UTF-8); nil and empty payload/metadata are the same value",
 		"floats are finite (NaN/Inf are not JSON-serialisable)",
